@@ -1,0 +1,17 @@
+//go:build verif
+// +build verif
+
+package rbtree
+
+// Re-exports of the unexported allocator primitives for the C06 verification harness.
+// They add no behaviour: each one only forwards to the function of the same name.
+
+// VerifMalloc forwards to malloc.
+func (allocator *Allocator) VerifMalloc() uint32 {
+	return allocator.malloc()
+}
+
+// VerifFree forwards to free.
+func (allocator *Allocator) VerifFree(n uint32) {
+	allocator.free(n)
+}
